@@ -233,7 +233,7 @@ func TestCheck(t *testing.T) {
 		e.Sample(tv.M{"plan": plans[i], "trace": b.TraceStrings(i)})
 	}
 	fmt.Printf("recorded %d runs, %d events\n", b.Len(), b.Lines())
-	rej, res := tv.Validate(tlc.Opts{Dir: "DirWrite", Module: "TraceDirContract", Config: "TraceDirContract.cfg", Workers: 16, Timeout: ev.Pick(5*time.Minute, 30*time.Minute), HeapMB: 8192}, b)
+	rej, res := tv.ValidateChunked(tlc.Opts{Dir: "DirWrite", Module: "TraceDirContract", Config: "TraceDirContract.cfg", Workers: 16, Timeout: ev.Pick(5*time.Minute, 30*time.Minute), HeapMB: 8192}, b)
 	fmt.Printf("TLC trace validation: ok=%v rejects=%d distinct=%d wall=%s %s\n", res.OK, len(rej), res.Distinct, res.Wall.Round(time.Millisecond), res.What)
 	if !res.OK {
 		e.Inconclusive("trace validation did not run: " + res.What + res.Tail(1500))
@@ -293,7 +293,7 @@ func selfTest(e *ev.Evidence) {
 	}
 	b.AppendTrace(mutA)
 	b.AppendTrace(mutB)
-	rej, res := tv.Validate(tlc.Opts{Dir: "DirWrite", Module: "TraceDirContract", Config: "TraceDirContract.cfg", Workers: 2, Timeout: 2 * time.Minute}, b)
+	rej, res := tv.ValidateChunked(tlc.Opts{Dir: "DirWrite", Module: "TraceDirContract", Config: "TraceDirContract.cfg", Workers: 2, Timeout: 2 * time.Minute}, b)
 	got := map[int]bool{}
 	for _, r := range rej {
 		got[r.Trace] = true
